@@ -176,8 +176,7 @@ def collect_information(exprs):  # noqa: C901
                 if sym.is_leaf():
                     try:
                         __sort_lookup[sym.data] = get_sort(term)
-                    except (IndexError, ValueError, AttributeError,
-                            AssertionError):
+                    except Exception:
                         # the term is not well-formed
                         __sort_lookup[sym.data] = None
                     __definition_node_ids.add(sym.id)
